@@ -402,7 +402,7 @@ func (ex *Exec) zero(t types.Type) Term {
 	}
 	if k, v, ok := arrayParts(s); ok {
 		if at, ok2 := types.Unalias(t).Underlying().(*types.Array); ok2 {
-			return mk(s, fmt.Sprintf("((as const %s) %s)", s, ex.zero(at.Elem()).S))
+			return ex.constArr(s, ex.zero(at.Elem()))
 		}
 		_ = k
 		_ = v
@@ -451,4 +451,21 @@ func (ex *Exec) heapSortByName(name string) string {
 		}
 	}
 	return ""
+}
+
+// constArr: the array whose every element is v. cvc5 accepts (as const ...) only for
+// value elements, so other element sorts get a named array with a defining axiom.
+func (ex *Exec) constArr(arrSort string, v Term) Term {
+	switch v.S {
+	case "0", "false", "true":
+		return mk(arrSort, fmt.Sprintf("((as const %s) %s)", arrSort, v.S))
+	}
+	ks, _, _ := arrayParts(arrSort)
+	name := smtName("carr$", arrSort+"$"+v.S)
+	if len(name) > 120 {
+		name = fmt.Sprintf("carr$%d", len(ex.d.consts))
+	}
+	ex.d.declConst(name, arrSort)
+	ex.d.axiom("carr:"+name, fmt.Sprintf("(assert (forall ((i %s)) (! (= (select %s i) %s) :pattern ((select %s i)))))", ks, name, v.S, name))
+	return mk(arrSort, name)
 }
